@@ -51,24 +51,33 @@ def run(tier, seed):
     from TidalPy.tides.multilayer.heating import calc_radial_tidal_heating
     from TidalPy.constants import G
     worst = {"hmu": 0.0, "hk": 0.0, "ends": 0.0, "heating": 0.0}
+    # the caller of a frequency sweep keeps ONE shear and ONE bulk array and refills them in place (vectorize_modulus_viscosity(..., out)):
+    # the jitted calls below are made on such reused buffers, the undecorated ones on fresh arrays
+    shear_buf, bulk_buf = np.zeros(3, dtype=np.complex128), np.zeros(3, dtype=np.complex128)
     for ri, row in enumerate(rows):
         _, y1, d, y3, y4, mu, kb, rr, l, y2, hmu, hk = row
         y1c, dc, y3c, y4c, muc, kbc, y2c = cx(y1), cx(d), cx(y3), cx(y4), cx(mu), cx(kb), cx(y2)
         rr = float(rr)
         h = rr / 4.0
-        radius = np.array([rr - h, rr, rr + h])
+        # the spacing below and above the point rotates through equal and unequal ratios (a non-uniform radial grid): y1 is linear in r,
+        # so the three-point gradient is exact whatever the spacing
+        h_up = h * [1.0, 0.5, 2.0, 3.0][ri % 4]
+        radius = np.array([rr - h, rr, rr + h_up])
         sol = np.zeros((6, 3), dtype=np.complex128)
-        sol[0] = [y1c - h * dc, y1c, y1c + h * dc]
+        sol[0] = [y1c - h * dc, y1c, y1c + h_up * dc]
         sol[1] = y2c
         sol[2] = y3c
         sol[3] = y4c
-        shear = np.full(3, muc)
-        bulk = np.full(3, kbc)
+        shear_buf[:] = muc
+        bulk_buf[:] = kbc
+        shear, bulk = shear_buf, bulk_buf
         keep = [a.copy() for a in (sol, radius, shear, bulk)]
         e_mu, e_k = float(fr(hmu)), float(fr(hk))
         ck.case(("kernel", ri), True)
-        det = {"l": l, "r": rr, "y1": str(y1c), "dy1/dr": str(dc), "y2": str(y2c), "y3": str(y3c), "y4": str(y4c), "mu": str(muc), "K": str(kbc)}
+        det = {"l": l, "r": rr, "spacing_below_above": [h, h_up], "y1": str(y1c), "dy1/dr": str(dc), "y2": str(y2c), "y3": str(y3c), "y4": str(y4c), "mu": str(muc), "K": str(kbc)}
         for tag, fs, fb in (("jit", sensitivity_to_shear, sensitivity_to_bulk),) + ((("py", pyf(sensitivity_to_shear), pyf(sensitivity_to_bulk)),) if ri % 6 == 0 else ()):
+            if tag == "py":
+                shear, bulk = np.full(3, muc), np.full(3, kbc)
             gm = fs(sol, radius, shear, bulk, l)
             gk = fb(sol, radius, shear, bulk, l)
             if not all(np.array_equal(a, b) for a, b in zip((sol, radius, shear, bulk), keep)):
@@ -83,7 +92,7 @@ def run(tier, seed):
                 ck.violation({"clause": "bulk_kernel", "impl": tag}, "sensitivity_to_bulk[%s] = %r, Tobie et al. kernel = %s = %r at %s" % (tag, gk[1], fr(hk), e_k, det), det)
                 break
             # one-sided stencils at the first and last slice (same slope, shifted y1 and r)
-            for j, rj in ((0, rr - h), (2, rr + h)):
+            for j, rj in ((0, rr - h), (2, rr + h_up)):
                 pm, pk = kernels_py(complex(sol[0, j]), dc, y2c, y3c, y4c, muc, kbc, rj, l)
                 sc2 = max(abs(pm), abs(pk), 1.0)
                 e2 = max(abs(gm[j] - pm), abs(gk[j] - pk)) / sc2
